@@ -134,6 +134,284 @@ theorem setVar_typed (name : Str) (v : Value F) (σ σ' : St F) (h : setVar name
   · have hm' : v.matchesName name = false := by simpa using hm
     simp [setVar, hm', M.fail] at h
 
+/-! ### the loop stack: FOR / NEXT -/
+
+/-- the variable names of the open loops, most recent first -/
+def loopNames (l : List (LoopInfo F)) : List Str := l.map (·.sym)
+
+omit [NumOps F] in
+theorem removeLoop_some (sym : Str) (l : List (LoopInfo F)) (info : LoopInfo F) (rest : List (LoopInfo F))
+    (h : removeLoop sym l = some (info, rest)) :
+    info.sym = sym ∧ ∃ inner, l = inner ++ info :: rest ∧ ∀ x ∈ inner, x.sym ≠ sym := by
+  induction l with
+  | nil => simp [removeLoop] at h
+  | cons x xs ih =>
+    simp only [removeLoop] at h
+    by_cases hx : x.sym = sym
+    · simp only [hx, beq_self_eq_true, ↓reduceIte, Option.some.injEq, Prod.mk.injEq] at h
+      obtain ⟨h1, h2⟩ := h
+      subst h1 h2
+      exact ⟨hx, [], by simp, by simp⟩
+    · have hb : (x.sym == sym) = false := by simpa using hx
+      simp only [hb, Bool.false_eq_true, ↓reduceIte] at h
+      obtain ⟨h1, inner, h2, h3⟩ := ih h
+      refine ⟨h1, x :: inner, by simp [h2], ?_⟩
+      intro y hy
+      rcases List.mem_cons.mp hy with rfl | hy
+      · exact hx
+      · exact h3 y hy
+
+omit [NumOps F] in
+theorem removeLoop_none (sym : Str) (l : List (LoopInfo F)) :
+    removeLoop sym l = none ↔ sym ∉ loopNames l := by
+  induction l with
+  | nil => simp [removeLoop, loopNames]
+  | cons x xs ih =>
+    simp only [removeLoop, loopNames, List.map_cons, List.mem_cons, not_or]
+    by_cases hx : x.sym = sym
+    · simp [hx]
+    · have hb : (x.sym == sym) = false := by simpa using hx
+      simp only [hb, Bool.false_eq_true, ↓reduceIte]
+      rw [ih]
+      exact ⟨fun h => ⟨fun e => hx e.symm, h⟩, fun h => h.2⟩
+
+omit [NumOps F] in
+/-- `remove_loop_with_name` finds the most recent loop for `sym` and drops it
+    together with everything opened after it; it finds nothing exactly when no
+    open loop has that name. -/
+theorem removeLoop_spec (sym : Str) (l : List (LoopInfo F)) :
+    (∀ info rest, removeLoop sym l = some (info, rest) →
+      info.sym = sym ∧ ∃ inner, l = inner ++ info :: rest ∧ ∀ x ∈ inner, x.sym ≠ sym) ∧
+    (removeLoop sym l = none ↔ sym ∉ loopNames l) :=
+  ⟨removeLoop_some sym l, removeLoop_none sym l⟩
+
+omit [NumOps F] in
+theorem removeLoop_length_lt (sym : Str) (l : List (LoopInfo F)) (info : LoopInfo F) (rest : List (LoopInfo F))
+    (h : removeLoop sym l = some (info, rest)) : rest.length < l.length := by
+  obtain ⟨_, inner, hl, _⟩ := removeLoop_some sym l info rest h
+  rw [hl]; simp; omega
+
+omit [NumOps F] in
+theorem removeLoop_nodup (sym : Str) (l : List (LoopInfo F)) (info : LoopInfo F) (rest : List (LoopInfo F))
+    (h : removeLoop sym l = some (info, rest)) (hn : (loopNames l).Nodup) :
+    (loopNames rest).Nodup ∧ sym ∉ loopNames rest := by
+  obtain ⟨hs, inner, hl, _⟩ := removeLoop_some sym l info rest h
+  rw [hl] at hn
+  simp only [loopNames, List.map_append, List.map_cons] at hn
+  have h2 := (List.nodup_append.mp hn).2.1
+  have h3 := List.nodup_cons.mp h2
+  rw [hs] at h3
+  exact ⟨h3.2, h3.1⟩
+
+omit [NumOps F] in
+/-- the loop that was found, put back on what is left: still no duplicates, and not longer -/
+theorem removeLoop_reinsert (sym : Str) (l : List (LoopInfo F)) (info : LoopInfo F) (rest : List (LoopInfo F))
+    (h : removeLoop sym l = some (info, rest)) :
+    (info :: rest).length ≤ l.length ∧ ((loopNames l).Nodup → (loopNames (info :: rest)).Nodup) := by
+  obtain ⟨_, inner, hl, _⟩ := removeLoop_some sym l info rest h
+  constructor
+  · rw [hl]; simp
+  · intro hn
+    rw [hl] at hn
+    simp only [loopNames, List.map_append] at hn
+    exact (List.nodup_append.mp hn).2.1
+
+/-- what `startLoop` leaves of the loop stack before pushing -/
+def afterRemove (sym : Str) (l : List (LoopInfo F)) : List (LoopInfo F) :=
+  match removeLoop sym l with
+  | some (_, rest) => rest
+  | none => l
+
+omit [NumOps F] in
+theorem afterRemove_spec (sym : Str) (l : List (LoopInfo F)) (hn : (loopNames l).Nodup) :
+    (afterRemove sym l).length ≤ l.length ∧ (loopNames (afterRemove sym l)).Nodup ∧
+    sym ∉ loopNames (afterRemove sym l) ∧
+    (sym ∈ loopNames l → (afterRemove sym l).length < l.length) ∧
+    (sym ∉ loopNames l → afterRemove sym l = l) := by
+  unfold afterRemove
+  cases h : removeLoop sym l with
+  | none =>
+    have hnot := (removeLoop_none sym l).mp h
+    exact ⟨Nat.le_refl _, hn, hnot, fun hin => absurd hin hnot, fun _ => rfl⟩
+  | some p =>
+    obtain ⟨info, rest⟩ := p
+    have hlt := removeLoop_length_lt sym l info rest h
+    have hnd := removeLoop_nodup sym l info rest h hn
+    refine ⟨Nat.le_of_lt hlt, hnd.1, hnd.2, fun _ => hlt, fun hnot => ?_⟩
+    have := (removeLoop_none sym l).mpr hnot
+    rw [h] at this; simp at this
+
+omit [NumOps F] in
+/-- `start_loop`, computed: the three possible outcomes. -/
+theorem startLoop_eq (sym : Str) (a b c : F) (σ : St F) :
+    startLoop sym a b c σ =
+      if (afterRemove sym σ.loops).length = Extracted.stackLimit then
+        .err { err := .oomStack } { σ with loops := afterRemove sym σ.loops }
+      else if (Value.num a : Value F).matchesName sym = true then
+        .ok () { σ with loops := { loc := σ.loc, sym := sym, toV := b, stepV := c } :: afterRemove sym σ.loops,
+                        vars := alSet sym (.num a) σ.vars }
+      else
+        .err { err := .typeMismatch }
+          { σ with loops := { loc := σ.loc, sym := sym, toV := b, stepV := c } :: afterRemove sym σ.loops } := by
+  unfold afterRemove
+  cases h : removeLoop sym σ.loops with
+  | none =>
+    by_cases hcap : σ.loops.length = Extracted.stackLimit
+    · simp [startLoop, bind, M.bindM, M.modify, M.get, h, hcap, M.fail]
+    · have hb : (σ.loops.length == Extracted.stackLimit) = false := by simpa using hcap
+      by_cases hm : (Value.num a : Value F).matchesName sym = true
+      · simp [startLoop, setVar, bind, M.bindM, M.modify, M.get, M.set, h, hcap, hb, hm]
+      · have hm' : (Value.num a : Value F).matchesName sym = false := by simpa using hm
+        simp [startLoop, setVar, bind, M.bindM, M.modify, M.get, M.set, M.fail, h, hcap, hb, hm']
+  | some p =>
+    obtain ⟨info, rest⟩ := p
+    by_cases hcap : rest.length = Extracted.stackLimit
+    · simp [startLoop, bind, M.bindM, M.modify, M.get, h, hcap, M.fail]
+    · have hb : (rest.length == Extracted.stackLimit) = false := by simpa using hcap
+      by_cases hm : (Value.num a : Value F).matchesName sym = true
+      · simp [startLoop, setVar, bind, M.bindM, M.modify, M.get, M.set, h, hcap, hb, hm]
+      · have hm' : (Value.num a : Value F).matchesName sym = false := by simpa using hm
+        simp [startLoop, setVar, bind, M.bindM, M.modify, M.get, M.set, M.fail, h, hcap, hb, hm']
+
+omit [NumOps F] in
+/-- FOR: the loop-stack cap and the one-loop-per-variable invariant are kept by
+    every outcome; a new variable at the cap is OUT OF MEMORY with the state
+    untouched; re-entering a FOR for an open variable never grows the stack. -/
+theorem for_cap (sym : Str) (a b c : F) (σ : St F)
+    (h : σ.loops.length ≤ Extracted.stackLimit) (hn : (loopNames σ.loops).Nodup) :
+    (∀ σ', startLoop sym a b c σ = .ok () σ' →
+      σ'.loops.length ≤ Extracted.stackLimit ∧ (loopNames σ'.loops).Nodup) ∧
+    (∀ e σ', startLoop sym a b c σ = .err e σ' →
+      σ'.loops.length ≤ Extracted.stackLimit ∧ (loopNames σ'.loops).Nodup) ∧
+    (sym ∉ loopNames σ.loops → σ.loops.length = Extracted.stackLimit →
+      startLoop sym a b c σ = .err { err := .oomStack } σ) ∧
+    (∀ σ', sym ∈ loopNames σ.loops → startLoop sym a b c σ = .ok () σ' →
+      σ'.loops.length ≤ σ.loops.length) := by
+  obtain ⟨hle, hnd, hnot, hlt, hsame⟩ := afterRemove_spec sym σ.loops hn
+  have hpush : (afterRemove sym σ.loops).length ≠ Extracted.stackLimit →
+      (({ loc := σ.loc, sym := sym, toV := b, stepV := c } : LoopInfo F) :: afterRemove sym σ.loops).length
+          ≤ Extracted.stackLimit ∧
+      (loopNames (({ loc := σ.loc, sym := sym, toV := b, stepV := c } : LoopInfo F) :: afterRemove sym σ.loops)).Nodup := by
+    intro hne
+    constructor
+    · simp only [List.length_cons]; omega
+    · simp only [loopNames, List.map_cons]
+      exact List.nodup_cons.mpr ⟨hnot, hnd⟩
+  rw [startLoop_eq]
+  refine ⟨?_, ?_, ?_, ?_⟩
+  · intro σ' h'
+    by_cases hcap : (afterRemove sym σ.loops).length = Extracted.stackLimit
+    · simp [hcap] at h'
+    · by_cases hm : (Value.num a : Value F).matchesName sym = true
+      · simp only [hcap, hm, ↓reduceIte, Res.ok.injEq, true_and] at h'
+        rw [← h']; exact hpush hcap
+      · simp [hcap, hm] at h'
+  · intro e σ' h'
+    by_cases hcap : (afterRemove sym σ.loops).length = Extracted.stackLimit
+    · simp only [hcap, ↓reduceIte, Res.err.injEq] at h'
+      rw [← h'.2]; exact ⟨by simpa using Nat.le_of_eq hcap, hnd⟩
+    · by_cases hm : (Value.num a : Value F).matchesName sym = true
+      · simp [hcap, hm] at h'
+      · have hm' : (Value.num a : Value F).matchesName sym = false := by simpa using hm
+        simp only [hcap, hm', Bool.false_eq_true, ↓reduceIte, Res.err.injEq] at h'
+        rw [← h'.2]; exact hpush hcap
+  · intro hni hcap
+    rw [hsame hni]
+    simp [hcap]
+  · intro σ' hin h'
+    have := hlt hin
+    by_cases hcap : (afterRemove sym σ.loops).length = Extracted.stackLimit
+    · simp [hcap] at h'
+    · by_cases hm : (Value.num a : Value F).matchesName sym = true
+      · simp only [hcap, hm, ↓reduceIte, Res.ok.injEq, true_and] at h'
+        rw [← h']; simp only [List.length_cons]; omega
+      · simp [hcap, hm] at h'
+
+/-- `end_loop`: whatever happens, the loop stack of the resulting state is the
+    old one, or what `removeLoop` left, with or without the loop it found. -/
+theorem endLoop_loops (sym : Str) (σ : St F) :
+    (∀ σ', endLoop sym σ = .ok () σ' →
+      σ'.loops = σ.loops ∨ ∃ info rest, removeLoop sym σ.loops = some (info, rest) ∧
+        (σ'.loops = info :: rest ∨ σ'.loops = rest)) ∧
+    (∀ e σ', endLoop sym σ = .err e σ' →
+      σ'.loops = σ.loops ∨ ∃ info rest, removeLoop sym σ.loops = some (info, rest) ∧
+        (σ'.loops = info :: rest ∨ σ'.loops = rest)) := by
+  cases hv : getVar σ sym with
+  | str s =>
+    have : endLoop sym σ = .err { err := .typeMismatch } σ := by
+      simp [endLoop, bind, M.bindM, M.get, hv, M.fail]
+    rw [this]
+    exact ⟨fun σ' h' => by simp at h', fun e σ' h' => by simp only [Res.err.injEq] at h'; rw [← h'.2]; exact .inl rfl⟩
+  | num cur =>
+    cases hr : removeLoop sym σ.loops with
+    | none =>
+      have : endLoop sym σ = .err { err := .nextWithoutFor } σ := by
+        simp [endLoop, bind, M.bindM, M.get, hv, hr, M.fail]
+      rw [this]
+      exact ⟨fun σ' h' => by simp at h', fun e σ' h' => by simp only [Res.err.injEq] at h'; rw [← h'.2]; exact .inl rfl⟩
+    | some p =>
+      obtain ⟨info, rest⟩ := p
+      constructor
+      · intro σ' h'
+        refine .inr ⟨info, rest, rfl, ?_⟩
+        by_cases hm : (Value.num (NumOps.add cur info.stepV) : Value F).matchesName sym = true
+        · by_cases hc : (if NumOps.ge info.stepV NumOps.zero then NumOps.le (NumOps.add cur info.stepV) info.toV
+              else NumOps.ge (NumOps.add cur info.stepV) info.toV) = true
+          · simp [endLoop, setVar, bind, M.bindM, M.get, hv, hr, M.set, M.modify, hc, hm] at h'
+            rw [← h']; exact .inl rfl
+          · simp [endLoop, setVar, bind, M.bindM, M.get, hv, hr, M.set, M.modify, hc, hm] at h'
+            rw [← h']; exact .inr rfl
+        · by_cases hc : (if NumOps.ge info.stepV NumOps.zero then NumOps.le (NumOps.add cur info.stepV) info.toV
+              else NumOps.ge (NumOps.add cur info.stepV) info.toV) = true
+          · simp [endLoop, setVar, bind, M.bindM, M.get, hv, hr, M.set, M.fail, hc, hm] at h'
+          · simp [endLoop, setVar, bind, M.bindM, M.get, hv, hr, M.set, M.fail, hc, hm] at h'
+      · intro e σ' h'
+        refine .inr ⟨info, rest, rfl, ?_⟩
+        by_cases hm : (Value.num (NumOps.add cur info.stepV) : Value F).matchesName sym = true
+        · by_cases hc : (if NumOps.ge info.stepV NumOps.zero then NumOps.le (NumOps.add cur info.stepV) info.toV
+              else NumOps.ge (NumOps.add cur info.stepV) info.toV) = true
+          · simp [endLoop, setVar, bind, M.bindM, M.get, hv, hr, M.set, M.modify, hc, hm] at h'
+          · simp [endLoop, setVar, bind, M.bindM, M.get, hv, hr, M.set, M.modify, hc, hm] at h'
+        · by_cases hc : (if NumOps.ge info.stepV NumOps.zero then NumOps.le (NumOps.add cur info.stepV) info.toV
+              else NumOps.ge (NumOps.add cur info.stepV) info.toV) = true
+          · simp [endLoop, setVar, bind, M.bindM, M.get, hv, hr, M.set, M.fail, hc, hm] at h'
+            rw [← h'.2]; exact .inl rfl
+          · simp [endLoop, setVar, bind, M.bindM, M.get, hv, hr, M.set, M.fail, hc, hm] at h'
+            rw [← h'.2]; exact .inr rfl
+
+omit [NumOps F] in
+theorem loops_shrink (sym : Str) (l l' : List (LoopInfo F))
+    (h : l' = l ∨ ∃ info rest, removeLoop sym l = some (info, rest) ∧ (l' = info :: rest ∨ l' = rest)) :
+    l'.length ≤ l.length ∧ ((loopNames l).Nodup → (loopNames l').Nodup) := by
+  rcases h with rfl | ⟨info, rest, hr, h⟩
+  · exact ⟨Nat.le_refl _, id⟩
+  · rcases h with h | h <;> rw [h]
+    · exact removeLoop_reinsert sym l info rest hr
+    · exact ⟨Nat.le_of_lt (removeLoop_length_lt sym l info rest hr),
+        fun hn => (removeLoop_nodup sym l info rest hr hn).1⟩
+
+/-- NEXT: no outcome grows the loop stack or introduces a duplicate name. -/
+theorem next_cap (sym : Str) (σ : St F) :
+    (∀ σ', endLoop sym σ = .ok () σ' →
+      σ'.loops.length ≤ σ.loops.length ∧ ((loopNames σ.loops).Nodup → (loopNames σ'.loops).Nodup)) ∧
+    (∀ e σ', endLoop sym σ = .err e σ' →
+      σ'.loops.length ≤ σ.loops.length ∧ ((loopNames σ.loops).Nodup → (loopNames σ'.loops).Nodup)) :=
+  ⟨fun σ' h' => loops_shrink sym _ _ ((endLoop_loops sym σ).1 σ' h'),
+   fun e σ' h' => loops_shrink sym _ _ ((endLoop_loops sym σ).2 e σ' h')⟩
+
+
+/-- Non-vacuity: FOR I inside FOR I / FOR J replaces both by the one new loop. -/
+example : (match startLoop (F := Unit) ['I'] () () ()
+      { loops := [{ loc := {}, sym := ['J'], toV := (), stepV := () }, { loc := {}, sym := ['I'], toV := (), stepV := () }] } with
+    | .ok () σ' => loopNames σ'.loops
+    | .err _ _ => []) = [['I']] := by decide
+
+/-- Non-vacuity: at the cap a FOR for a new variable is OUT OF MEMORY. -/
+example : (match startLoop (F := Unit) ['I'] () () ()
+      { loops := List.replicate 32 { loc := {}, sym := ['J'], toV := (), stepV := () } } with
+    | .ok () _ => none
+    | .err e σ' => some (e.err, σ'.loops.length)) = some (.oomStack, 32) := by decide
+
 /-- Non-vacuity: the largest array that fits and the smallest that does not. -/
 example : (ArrayV.create (F := Unit) ['A'] [99, 99]).toOption.isSome = true ∧
           (ArrayV.create (F := Unit) ['A'] [99, 100]).toOption.isSome = false := by decide
